@@ -103,7 +103,7 @@ func (t *Thread) RunContinuation(c Cont) (err error) {
 			}
 			err = rtErr.AddContext(c, -1)
 			errContCount++
-			if t.messageHandler != nil {
+			if t.messageHandler != nil && t.messageHandlerThread == t {
 				if errContCount > maxErrorsInMessageHandler {
 					return newHandledError(errErrorInMessageHandler)
 				}
@@ -305,6 +305,7 @@ func (t *Thread) sendResumeValues(args []Value, err error, exception interface{}
 // See quotas.md for details about this API.
 func (t *Thread) CallContext(def RuntimeContextDef, f func() error) (ctx RuntimeContext, err error) {
 	t.PushContext(def)
+	t.messageHandlerThread = t
 	c, h := t.CurrentCont(), t.closeStack.size()
 	defer func() {
 		ctx = t.PopContext()
